@@ -82,11 +82,16 @@ func (r *mrun) runOps(ops []Op, mod, where string) opStats {
 	var s opStats
 	var stack []mstate
 	sstack := map[int][]mstate{}
-	retainedSeen := map[int]bool{}
-	restored := false
+	retainedSeen := map[int]bool{} // stores whose retained handle exists
+	stale := map[int]bool{}        // ... and was obtained before the latest restore
+	markStale := func() {
+		for st := range retainedSeen {
+			stale[st] = true
+		}
+	}
 	for _, op := range ops {
 		if op.H == 1 && (op.K == "set" || op.K == "del" || op.K == "get" || op.K == "has") {
-			if restored && retainedSeen[op.S] {
+			if stale[op.S] {
 				s.retainedAfterRestore++
 			}
 			retainedSeen[op.S] = true
@@ -124,7 +129,7 @@ func (r *mrun) runOps(ops []Op, mod, where string) opStats {
 			r.st = stack[op.N]
 			stack = stack[:op.N]
 			s.restores++
-			restored = true
+			markStale()
 		case "ssnap":
 			retainedSeen[op.S] = true
 			sstack[op.S] = append(sstack[op.S], r.st.clone())
@@ -132,7 +137,7 @@ func (r *mrun) runOps(ops []Op, mod, where string) opStats {
 			r.st = sstack[op.S][op.N]
 			sstack[op.S] = sstack[op.S][:op.N]
 			s.storeRestores++
-			restored = true
+			markStale()
 			retainedSeen[op.S] = true
 		}
 	}
